@@ -227,7 +227,7 @@ class Facts:
     def loc(self, b, node=None):
         if node is None:
             return "%s:%s" % (b["file"], b["line"])
-        f = self.S[node["f"]] if "f" in node else b["file"]
+        f = self.S[node["f"]] if isinstance(node.get("f"), int) else b["file"]
         return "%s:%s" % (f, node.get("l"))
 
     def callee(self, node):
